@@ -648,6 +648,85 @@ pub fn simplify<T: DSet>(ds: &T) -> Option<PartialDSym> {
 }
 
 
+// Verification hooks (compiled only with --cfg odf_rust_dsymbols_verif): public
+// wrappers for the private rewriting primitives, so that each can be driven and
+// compared with its model in isolation. `None` = the primitive declined,
+// `Some(None)` = the empty D-set.
+#[cfg(odf_rust_dsymbols_verif)]
+pub mod verif_hooks {
+    use super::*;
+
+    fn unwrap_ds(ds: Option<DSetOrEmpty>) -> Option<Option<PartialDSet>> {
+        ds.map(|ds| match ds {
+            DSetOrEmpty::Empty => None,
+            DSetOrEmpty::DSet(ds) => Some(ds),
+        })
+    }
+
+    pub fn collapse(ds: &PartialDSet, remove: Vec<usize>, connector: usize)
+        -> Option<Option<PartialDSet>>
+    {
+        unwrap_ds(super::collapse(&DSetOrEmpty::DSet(ds.clone()), remove, connector))
+    }
+
+    pub fn reglue(ds: &PartialDSet, pairs: Vec<(usize, usize)>, index: usize)
+        -> Option<PartialDSet>
+    {
+        super::reglue(ds, pairs, index)
+    }
+
+    pub fn grow(ds: &PartialDSet, m: usize) -> PartialDSet {
+        super::grow(ds, m)
+    }
+
+    pub fn cut_face(ds: &PartialDSet, d1: usize, d2: usize) -> PartialDSet {
+        super::cut_face(ds, d1, d2)
+    }
+
+    pub fn cut_tile(ds: &PartialDSet, cut_chambers: &Vec<usize>) -> PartialDSet {
+        super::cut_tile(ds, cut_chambers)
+    }
+
+    pub fn squeeze_tile_3d(ds: &PartialDSet, d: usize, e: usize) -> PartialDSet {
+        super::squeeze_tile_3d(ds, d, e)
+    }
+
+    pub fn merge_tiles(ds: &PartialDSet) -> Option<Option<PartialDSet>> {
+        unwrap_ds(super::merge_tiles(&DSetOrEmpty::DSet(ds.clone())))
+    }
+
+    pub fn merge_facets(ds: &PartialDSet) -> Option<Option<PartialDSet>> {
+        unwrap_ds(super::merge_facets(&DSetOrEmpty::DSet(ds.clone())))
+    }
+
+    pub fn merge_all(ds: &PartialDSet) -> Option<Option<PartialDSet>> {
+        unwrap_ds(super::merge_all(&DSetOrEmpty::DSet(ds.clone())))
+    }
+
+    pub fn fix_local_1_vertex(ds: &PartialDSet) -> Option<Option<PartialDSet>> {
+        unwrap_ds(super::fix_local_1_vertex(&DSetOrEmpty::DSet(ds.clone())))
+    }
+
+    pub fn fix_local_2_vertex(ds: &PartialDSet) -> Option<Option<PartialDSet>> {
+        unwrap_ds(super::fix_local_2_vertex(&DSetOrEmpty::DSet(ds.clone())))
+    }
+
+    pub fn fix_non_disk_face(ds: &PartialDSet) -> Option<Option<PartialDSet>> {
+        unwrap_ds(super::fix_non_disk_face(&DSetOrEmpty::DSet(ds.clone())))
+    }
+
+    pub fn split_and_glue(ds: &PartialDSet) -> Option<Option<PartialDSet>> {
+        unwrap_ds(super::split_and_glue(&DSetOrEmpty::DSet(ds.clone())))
+    }
+
+    pub fn make_skeleton(ds: &PartialDSet)
+        -> (Vec<usize>, Vec<usize>, Vec<(usize, usize)>)
+    {
+        super::make_skeleton(ds)
+    }
+}
+
+
 #[cfg(test)]
 mod test {
     use crate::covers::finite_universal_cover;
